@@ -67,6 +67,7 @@ type vtCase struct {
 	ID      string         `json:"id"`
 	Harness string         `json:"harness"`
 	Inputs  map[string]any `json:"inputs"`
+	Repeat  int            `json:"repeat,omitempty"`
 }
 type vtResult struct {
 	ID       string            `json:"id"`
@@ -179,7 +180,11 @@ func (r *checkRun) execute() int {
 				c := &candidate{h: hr.h, v: v, caseID: id, path: p}
 				cands = append(cands, c)
 				if v.Model != nil {
-					casesByDir[hr.h.dir] = append(casesByDir[hr.h.dir], vtCase{ID: id, Harness: hr.h.fn.Name(), Inputs: r.withBounds(boundInputs(v.Model))})
+					vc := vtCase{ID: id, Harness: hr.h.fn.Name(), Inputs: r.withBounds(boundInputs(v.Model))}
+					if p.SchedPoints > 0 {
+						vc.Repeat = 400 // schedule-dependent: stress until it shows
+					}
+					casesByDir[hr.h.dir] = append(casesByDir[hr.h.dir], vc)
 				}
 			}
 		}
@@ -196,6 +201,14 @@ func (r *checkRun) execute() int {
 	}
 
 	// ---- translator validation ----
+	violatedLabels := map[string]bool{}
+	for _, hr := range results {
+		for _, p := range hr.hr.Paths {
+			for _, v := range p.Violations {
+				violatedLabels[hr.h.fn.Name()+"/"+v.Label] = true
+			}
+		}
+	}
 	validated, mismatches := 0, []string{}
 	if !r.noNative && nativeErr == "" {
 		for _, s := range samples {
@@ -209,6 +222,24 @@ func (r *checkRun) execute() int {
 				continue
 			}
 			bad := false
+			if s.p.SchedPoints > 0 {
+				// the outcome depends on the schedule, which the native run does not follow: a native failure is only
+				// a disagreement if the engine found that assertion violated on no path at all
+				for _, f := range nr.Failed {
+					if !violatedLabels[s.h.fn.Name()+"/"+f] {
+						mismatches = append(mismatches, fmt.Sprintf("%s: native run (free schedule) failed assertion %s which the engine found violated on no explored schedule; inputs=%v", s.h.fn.Name(), f, s.p.Model))
+						bad = true
+					}
+				}
+				if nr.Panic != "" && !violatedLabels[s.h.fn.Name()+"/no-panic"] && !violatedLabels[s.h.fn.Name()+"/deadlock"] {
+					mismatches = append(mismatches, fmt.Sprintf("%s: native run (free schedule) panicked: %s; inputs=%v", s.h.fn.Name(), nr.Panic, s.p.Model))
+					bad = true
+				}
+				if !bad {
+					validated++
+				}
+				continue
+			}
 			// a path that finished without violation must not fail natively
 			if len(s.p.Violations) == 0 {
 				if nr.Panic != "" {
